@@ -120,6 +120,67 @@ DL = "dl_type_x != NO_DL"
 FAILG = "charge_ptr->Get_grams() > MIN_RELATED_SURFACE && fabs(residual[i]) > l_toler"
 
 
+_SCALAR = {"double", "LDBLE", "long double", "float"}
+
+
+def scalar_locals(node):
+    """names (in order of first occurrence) of the scalar LOCAL variables an expression refers to"""
+    out = []
+
+    def walk(n):
+        if isinstance(n, dict):
+            if n.get("kind") == "DeclRefExpr":
+                rd = n.get("referencedDecl", {})
+                ty = rd.get("type", {}).get("qualType", "").replace("const ", "").strip()
+                if rd.get("kind") == "VarDecl" and ty in _SCALAR and rd.get("name") not in out:
+                    out.append(rd.get("name"))
+            for c in n.get("inner", []) or []:
+                walk(c)
+    walk(node)
+    return out
+
+
+def _one(lst, what):
+    if len(lst) != 1:
+        raise LeafError("expected exactly one scalar local in %s, found %s" % (what, lst))
+    return lst[0]
+
+
+def _under(site, conds):
+    have = [re.sub(r"\s+", "", c) for t, c in site.conds if t == "if"]
+    return all(re.sub(r"\s+", "", u) in have for u in conds)
+
+
+def discover_locals(fn, DDLC, CDC, CB2):
+    """the NAMES of the scalar temporaries of Phreeqc::residuals are found from the data flow (so renaming one is harmless):
+    sc_ddl: the local in the DDL residual; sum0: the local in the Set_sigma0 argument; sddl: the local in the CB2 residual;
+    its two assignments mention sc_cd (never accumulated) and sum2 (accumulated), under a condition on neg; the balancing-ion
+    increments of sum2 are under a condition on sum1; ltol: the local initialised with convergence_tolerance."""
+    N = {}
+    N["sc_ddl"] = _one(scalar_locals(fn.select(lhs="residual[i]", under=[DDLC, G0, NODL]).node), "the DDL residual")
+    N["sum0"] = _one(scalar_locals(fn.select(lhs="charge_ptr->Set_sigma0", under=[CDC, G0]).node), "the Set_sigma0 argument")
+    N["sddl"] = _one(scalar_locals(fn.select(lhs="residual[i]", under=[CB2, G0, NODL]).node), "the SURFACE_CB2 residual")
+    sd = [x for x in fn.sites if x.lhs == N["sddl"] and x.kind == "assign" and _under(x, [CB2, G0, NODL])]
+    if len(sd) != 2:
+        raise LeafError("expected 2 assignments to %s in the SURFACE_CB2 branch, found %d" % (N["sddl"], len(sd)))
+    loc = scalar_locals(sd[0].node)
+    acc = [n for n in loc if any(x.lhs == n and x.kind == "compound" for x in fn.sites)]
+    N["sum2"] = _one(acc, "the accumulated local of sigma_ddl")
+    N["sc_cd"] = _one([n for n in loc if n not in acc], "the constant local of sigma_ddl")
+    cond = [c for t, c in sd[0].conds if t == "if"][-1]
+    N["neg"] = _one(re.findall(r"[A-Za-z_]\w*", cond), "the condition of the sigma_ddl assignment")
+    fict = [x for x in fn.sites if x.lhs == N["sum2"] and x.kind == "compound" and _under(x, [CB2, G0, NODL])
+            and not any(t == "loop" for t, c in x.conds[-2:])]
+    names = set()
+    for x in fict:
+        c = [c for t, c in x.conds if t == "if"][-1]
+        names |= set(re.findall(r"[A-Za-z_]\w*", c))
+    N["sum1"] = _one(sorted(names), "the condition of the balancing-ion increments")
+    lt = [x.lhs for x in fn.sites if x.kind in ("assign", "init") and leaf.render(x.node).strip() == "convergence_tolerance"]
+    N["ltol"] = _one(sorted(set(lt)), "the tolerance local")
+    return N
+
+
 class _Refused:
     """placeholder for a leaf the translator refused: an unconstrained variable, so every theorem about it fails"""
     def __init__(self, name, err):
@@ -179,11 +240,12 @@ def _generate(errors):
     def lf(name, vars_, inline=None, **sel):
         add(fn, name, vars=vars_, inline=inline or {}, allow_new_vars=False, **sel)
 
+    N = discover_locals(fn, DDLC, CDC, CB2)
     # --- site (mole) balance row
     lf("surf_res", ["x[i]->moles", F_], lhs="residual[i]", under=[T("SURFACE")])
     # --- DDL
-    SC = {"sinh_constant": {"under": [DDLC]}}
-    lf("ddl_sinh_constant", ["eps_r", "tk_x"], lhs="sinh_constant", under=[DDLC])
+    SC = {N["sc_ddl"]: {"under": [DDLC]}}
+    lf("ddl_sinh_constant", ["eps_r", "tk_x"], lhs=N["sc_ddl"], under=[DDLC])
     lf("ddl_res", [LA, "LOG_10", "mu_x", "eps_r", "tk_x", F_, AREA, GRAMS], inline=SC, lhs="residual[i]", under=[DDLC, G0, NODL])
     lf("ddl_res_dl", [F_], lhs="residual[i]", under=[DDLC, G0, DL])
     lf("ddl_res_nograms", [], lhs="residual[i]", under=[DDLC, "charge_ptr->Get_grams() == 0"])
@@ -193,28 +255,29 @@ def _generate(errors):
     # --- CD-MUSIC plane 0: psi_k, sigma0, residual
     for k in range(3):
         lf("cd_psi%d" % k, [LAP[k], "LOG_10", "tk_x"], lhs="cd_psi.push_back", under=[CDC, G0], nth=k)
-    lf("cd_sigma0", [F_, "sum", AREA, GRAMS], lhs="charge_ptr->Set_sigma0", under=[CDC, G0])
+    lf("cd_sigma0", [F_, N["sum0"], AREA, GRAMS], lhs="charge_ptr->Set_sigma0", under=[CDC, G0])
     lf("cd_res0", [S0, C0, "cd_psi[0]", "cd_psi[1]"], lhs="residual[i]", under=[CDC, G0])
     # --- CD-MUSIC plane 1
     lf("cd_sigma1", [F_, AREA, GRAMS], lhs="charge_ptr->Set_sigma1", under=[CB1, G0])
     lf("cd_res1", [S0, S1, C1, "cd_psi[1]", "cd_psi[2]"], lhs="residual[i]", under=[CB1, G0])
     # --- CD-MUSIC plane 2, no explicit diffuse layer: Grahame equation
-    SC2 = {"sinh_constant": {"under": [CB2, G0, NODL]}}
-    lf("cd_sinh_constant", ["eps_r", "tk_x"], lhs="sinh_constant", under=[CB2, G0, NODL])
-    lf("cd_negfpsirt", [LAP[2], "LOG_10"], lhs="negfpsirt", under=[CB2, G0, NODL])
+    SC2 = {N["sc_cd"]: {"under": [CB2, G0, NODL]}}
+    NEGC = [c for t, c in [x for x in fn.sites if x.lhs == N["sddl"] and x.kind == "assign" and _under(x, [CB2, G0, NODL])][0].conds if t == "if"][-1]
+    lf("cd_sinh_constant", ["eps_r", "tk_x"], lhs=N["sc_cd"], under=[CB2, G0, NODL])
+    lf("cd_negfpsirt", [LAP[2], "LOG_10"], lhs=N["neg"], under=[CB2, G0, NODL])
     lf("cd_sigma2", [F_, AREA, GRAMS], lhs="charge_ptr->Set_sigma2", under=[CB2, G0, NODL])
-    lf("cd_sigmaddl_neg", ["sum", "eps_r", "tk_x"], inline=SC2, lhs="sigmaddl", under=[CB2, G0, NODL, "(negfpsirt) < 0"])
-    lf("cd_sigmaddl_pos", ["sum", "eps_r", "tk_x"], inline=SC2, lhs="sigmaddl", under=[CB2, G0, NODL, "!((negfpsirt) < 0)"])
-    lf("cd_res2", [S0, S1, S2, "sigmaddl"], lhs="residual[i]", under=[CB2, G0, NODL])
+    lf("cd_sigmaddl_neg", [N["sum2"], "eps_r", "tk_x"], inline=SC2, lhs=N["sddl"], under=[CB2, G0, NODL, NEGC])
+    lf("cd_sigmaddl_pos", [N["sum2"], "eps_r", "tk_x"], inline=SC2, lhs=N["sddl"], under=[CB2, G0, NODL, "!(" + NEGC + ")"])
+    lf("cd_res2", [S0, S1, S2, N["sddl"]], lhs="residual[i]", under=[CB2, G0, NODL])
     AQC = "s_x[j]->type < %d" % M["H2O"]
-    add(fn, "cd_gsum_term", vars=["under(s_x[j]->lm)", "s_x[j]->z", "negfpsirt"], allow_new_vars=False, increment=True,
-                     lhs="sum", under=[CB2, G0, NODL, AQC])
+    add(fn, "cd_gsum_term", vars=["under(s_x[j]->lm)", "s_x[j]->z", N["neg"]], allow_new_vars=False, increment=True,
+                     lhs=N["sum2"], under=[CB2, G0, NODL, AQC])
     add(fn, "cd_gsum1_term", vars=["under(s_x[j]->lm)", "s_x[j]->z"], allow_new_vars=False, increment=True,
-                     lhs="sum1", under=[CB2, G0, NODL, AQC])
-    add(fn, "cd_gsum_fict_pos", vars=["sum1", "negfpsirt"], allow_new_vars=False, increment=True,
-                     lhs="sum", under=[CB2, G0, NODL, "sum1 >= 0"])
-    add(fn, "cd_gsum_fict_neg", vars=["sum1", "negfpsirt"], allow_new_vars=False, increment=True,
-                     lhs="sum", under=[CB2, G0, NODL, "!(sum1 >= 0)"])
+                     lhs=N["sum1"], under=[CB2, G0, NODL, AQC])
+    add(fn, "cd_gsum_fict_pos", vars=[N["sum1"], N["neg"]], allow_new_vars=False, increment=True,
+                     lhs=N["sum2"], under=[CB2, G0, NODL, N["sum1"] + " >= 0"])
+    add(fn, "cd_gsum_fict_neg", vars=[N["sum1"], N["neg"]], allow_new_vars=False, increment=True,
+                     lhs=N["sum2"], under=[CB2, G0, NODL, "!(" + N["sum1"] + " >= 0)"])
     # --- CD-MUSIC plane 2 with explicit diffuse layer
     lf("cd_res2_dl", [F_, S0, S1, AREA, GRAMS], lhs="residual[i]", under=[CB2, G0, DL])
 
@@ -227,7 +290,10 @@ def _generate(errors):
             have = [re.sub(r"\s+", "", c) for t, c in s.conds if t == "if"]
             if all(re.sub(r"\s+", "", u) in have for u in under):
                 own = [c for t, c in s.conds if t == "if" and "x[i]->type" not in c]
-                out.append(" ;; ".join(own))
+                txt = " ;; ".join(own)
+                for real, canon in ((N["sum2"], "sum"), (N["ltol"], "l_toler")):
+                    txt = re.sub(r"\b%s\b" % re.escape(real), canon, txt)
+                out.append(txt)
         return out
 
     def cstr(s):
@@ -237,7 +303,7 @@ def _generate(errors):
         extra.append("Definition %s_fail_guards : list string := [%s]." % (nm, "; ".join(cstr(g) for g in guards(und))))
     # MIN_RELATED_SURFACE / tolerances are data members / macros: record how l_toler is initialised
     for s in fn.sites:
-        if s.lhs == "l_toler" and not [c for t, c in s.conds if t == "if"]:
+        if s.lhs == N["ltol"] and not [c for t, c in s.conds if t == "if"]:
             extra.append("Definition residuals_l_toler_init : string := %s." % cstr(leaf.render(s.node)))
             break
     else:
@@ -258,17 +324,19 @@ def _generate(errors):
     ld("edl_psi2_cd", ["master_ptr->s->la", "LOG_10", "tk_x"], ret=True, under=[Q("psi2"), "master_ptr != NULL"])
     ld("edl_charge", ["x[j]->f"], ret=True, under=[Q("charge"), "(" + DDLCCM + ") && dl_type_x == NO_DL"])
     ld("edl_charge_cd", [S0, AREA, GRAMS], ret=True, under=[Q("charge"), "use.Get_surface_ptr()->Get_type() == CD_MUSIC"])
-    ld("edl_sigma", ["charge", AREA, GRAMS], ret=True,
-       under=[Q("sigma"), DDLCCM, "(charge_ptr->Get_specific_area() * charge_ptr->Get_grams()) > 0"])
-    ld("edl_sigma_charge_nodl", ["x[j]->f"], lhs="charge", under=[Q("sigma"), DDLCCM, "!(dl_type_x != NO_DL)"])
+    SIGC = [Q("sigma"), DDLCCM, "(charge_ptr->Get_specific_area() * charge_ptr->Get_grams()) > 0"]
+    CH = _one(scalar_locals(fd.select(ret=True, under=SIGC).node), "the EDL sigma read-out")
+    ld("edl_sigma", [CH, AREA, GRAMS], ret=True, under=SIGC)
+    ld("edl_sigma_charge_nodl", ["x[j]->f"], lhs=CH, under=[Q("sigma"), DDLCCM, "!(dl_type_x != NO_DL)"])
     ld("edl_sigma_cd", [S0], ret=True, under=[Q("sigma"), "use.Get_surface_ptr()->Get_type() == CD_MUSIC"])
     ld("edl_sigma1_cd", [S1], ret=True, under=[Q("sigma1"), "use.Get_surface_ptr()->Get_type() == CD_MUSIC"])
     ld("edl_sigma2_cd", [S2], ret=True, under=[Q("sigma2"), "use.Get_surface_ptr()->Get_type() == CD_MUSIC"])
 
     # --- mass action: coefficient of the potential master species (DDL / CCM)
     fp = load_function(os.path.join(vlib.REPO, "src/phreeqcpp/prep.cpp"), "add_potential_factor")
-    add(fp, "pot_coef", vars=["sum_z"], allow_new_vars=False, lhs="trxn.token[count_trxn].coef")
-    add(fp, "pot_sum_z_term", vars=["trxn.token[i].s->z", "trxn.token[i].coef"], allow_new_vars=False, increment=True, lhs="sum_z")
+    SZ = _one(scalar_locals(fp.select(lhs="trxn.token[count_trxn].coef").node), "the potential coefficient")
+    add(fp, "pot_coef", vars=[SZ], allow_new_vars=False, lhs="trxn.token[count_trxn].coef")
+    add(fp, "pot_sum_z_term", vars=["trxn.token[i].s->z", "trxn.token[i].coef"], allow_new_vars=False, increment=True, lhs=SZ)
     extra.append("Definition pot_sum_z_guard : list string := [%s]." % "; ".join(cstr(c) for c in L[-1].conds))
     extra.append("Definition species_type_AQ : Z := %d.  Definition species_type_SURF : Z := %d." % (M["AQ"], M["SURF"]))
     fc = load_function(os.path.join(vlib.REPO, "src/phreeqcpp/prep.cpp"), "add_cd_music_factors")
